@@ -438,7 +438,11 @@ fn judge_image(case: &Case, image: &Path, k: usize, last_kind: &str, variant: &'
                         }
                     }
                     // messages accepted after recovery continue at the next offset, and a second restart agrees
-                    let next = offsets.last().map(|o| o + 1).unwrap_or_else(|| if polled.current_offset > 0 { polled.current_offset + 1 } else { 0 });
+                    let mut next = offsets.last().map(|o| o + 1).unwrap_or_else(|| if polled.current_offset > 0 { polled.current_offset + 1 } else { 0 });
+                    // a partition that serves nothing and reports current offset 0 is either new (next offset 0) or
+                    // holds an empty segment that continues after deleted messages (next offset 1): both are told
+                    // apart only by where the next message lands
+                    let next_may_be_one = offsets.is_empty() && polled.current_offset == 0;
                     let probe = MsgSpec { id: 900_000 + p.id as u128 + ((t.id as u128) << 8), salt: 77, len: 12, headers: 0 };
                     let mut messages = vec![probe.to_message()];
                     let sent = client.send_messages(&sid, &tid, &Partitioning::partition_id(p.id), &mut messages).await;
@@ -448,7 +452,15 @@ fn judge_image(case: &Case, image: &Path, k: usize, last_kind: &str, variant: &'
                     w.sim.settle().await;
                     match sent {
                         Ok(()) => {
-                            let after = client.poll_messages(&sid, &tid, Some(p.id), &Consumer::default(), &PollingStrategy::offset(next), 10, false).await;
+                            let mut after = client.poll_messages(&sid, &tid, Some(p.id), &Consumer::default(), &PollingStrategy::offset(next), 10, false).await;
+                            if next_may_be_one {
+                                if let Ok(a) = &after {
+                                    if a.messages.first().map(|m| m.id == probe.id && m.offset == 1).unwrap_or(false) {
+                                        next = 1;
+                                        after = client.poll_messages(&sid, &tid, Some(p.id), &Consumer::default(), &PollingStrategy::offset(next), 10, false).await;
+                                    }
+                                }
+                            }
                             match after {
                                 Ok(a) if a.messages.first().map(|m| m.id == probe.id && m.offset == next).unwrap_or(false) => {}
                                 Ok(a) => {
